@@ -1134,6 +1134,11 @@ class Interp:
         nat = self.natives.get(fq)
         if nat is not None:
             return nat(self, fn, e, obj, args)
+        if fq in ('std::swap',) and len(args) == 2 and isinstance(args[0], LV) and isinstance(args[1], LV):
+            x_, y_ = args[0].load(), args[1].load()
+            args[0].store(y_)
+            args[1].store(x_)
+            return None
         if fq in ('memcpy', 'memmove', 'std::memcpy', '__builtin_memcpy'):
             d_, s_, n_ = self.rv(args[0]), self.rv(args[1]), self.rv(args[2])
             if isinstance(d_, It) and isinstance(s_, It) and isinstance(n_, int) and not isinstance(n_, bool) and 0 <= n_ <= 4096:
